@@ -314,7 +314,7 @@ func ghostSort(s string) string {
 		return "Str"
 	case "iface":
 		return "Iface"
-	case "slice", "bytes":
+	case "slice", "bytes", "strs":
 		return "Slice"
 	}
 	panic(engineErr("bad ghost sort " + s))
